@@ -208,6 +208,25 @@ func instrOrdinal(in ssa.Instruction) string {
 	return fmt.Sprintf("b%d", b.Index)
 }
 
+// proveLemma emits the obligation of a lemma: a closed formula valid in the theory alone.
+func (ex *Exec) proveLemma(lm *Lemma) {
+	defer func() {
+		if r := recover(); r != nil {
+			if tp, ok := r.(toolPanic); ok {
+				ex.errs = append(ex.errs, ToolError{"lemma " + lm.Name, tp.msg})
+				return
+			}
+			panic(r)
+		}
+	}()
+	st := &State{heap: map[string]Term{}, declared: map[string]bool{}, cells: map[int]*Val{}}
+	st.next0, st.next = tOne, tOne
+	env := &SpecEnv{ex: ex, st: st, vars: map[string]*Val{}, cur: st, old: st, pkg: ex.ld.typesPkg(lm.Pkg), nextOld: tOne}
+	g := env.eval(lm.E)
+	name := "lemma:" + lm.Name
+	ex.obls = append(ex.obls, &Obligation{Name: name, Fn: name, Class: "lemma", Tags: lm.Tags, Lines: st.lines, Goal: g.T, Desc: lm.Src, Inst: 1})
+}
+
 // ---------------------------------------------------------------------------
 // type helpers
 
@@ -750,6 +769,14 @@ func (ex *Exec) verifyFunc(fn *ssa.Function, c *Contract) {
 	for _, r := range c.Requires {
 		st.assume(env.evalBool(r))
 	}
+	for _, ln := range c.Uses {
+		lm := ex.ct.Lemmas[ln]
+		if lm == nil {
+			ex.fail("unknown lemma %s", ln)
+		}
+		lenv := &SpecEnv{ex: ex, st: st, vars: map[string]*Val{}, cur: st, old: entryView{st}, pkg: ex.ld.typesPkg(lm.Pkg), nextOld: st.next0}
+		st.assume(lenv.eval(lm.E).T)
+	}
 	st.trace = nil
 	ex.entrySt = st.clone()
 	ex.cover(st, "requires", c.Tags, "preconditions are satisfiable")
@@ -1158,6 +1185,14 @@ func (ex *Exec) havocLoopCells(st *State, nl *natLoop) {
 	fr := st.frame
 	for b := range nl.body {
 		for _, in := range b.Instrs {
+			if nx, ok := in.(*ssa.Next); ok {
+				// the position of a map iterator advanced inside the loop
+				if v, ok := fr.vals[nx.Iter]; ok && v.Iter != nil && v.Addr != nil {
+					p := ex.freshConst(st, "iterpos", SInt)
+					st.assume(mkAnd(app(SBool, "<=", tZero, p), app(SBool, "<=", p, v.Iter.Card)))
+					st.cells[v.Addr.Cell] = scalar(p, types.Typ[types.Int])
+				}
+			}
 			if s, ok := in.(*ssa.Store); ok {
 				if v, ok := fr.vals[s.Addr]; ok && v.Addr != nil && v.Addr.Kind == aCell {
 					st.cells[v.Addr.Cell] = ex.freshVal(st, "cell", v.Addr.Elem)
@@ -1202,7 +1237,18 @@ func (ex *Exec) loopEnv(st *State, header *ssa.BasicBlock, lc *LoopContract) *Sp
 			}
 		}
 	}
-	return &SpecEnv{ex: ex, st: st, vars: vars, cur: st, old: entryView{st}, pkg: fr.fn.Pkg.Pkg, nextOld: st.next0}
+	env := &SpecEnv{ex: ex, st: st, vars: vars, cur: st, old: entryView{st}, pkg: fr.fn.Pkg.Pkg, nextOld: st.next0}
+	// a map iterator of the function: iterpos (keys delivered so far), itercard, iterkey(q), iterord(k)
+	for v, val := range fr.vals {
+		if _, ok := v.(*ssa.Range); ok && val.Iter != nil && val.Addr != nil {
+			if c, ok := st.cells[val.Addr.Cell]; ok {
+				vars["iterpos"] = c
+				vars["itercard"] = scalar(val.Iter.Card, types.Typ[types.Int])
+				env.iter = val.Iter
+			}
+		}
+	}
+	return env
 }
 
 func (ex *Exec) evalPhis(st *State, b *ssa.BasicBlock, pred *ssa.BasicBlock) map[*ssa.Phi]*Val {
